@@ -218,8 +218,43 @@ def run(pid, tier, seed, work, a, t0):
                     samples.append({'proof': r['proof'], 'id': o['id'], 'desc': o['desc'], 'at': '%s:%s' % (o['file'], o['line']), 'status': o['status']})
                     break
 
+    # thorough tier: native sweeps -- the replay drivers run over fixed input lists against the real code (bounded, supporting:
+    # they cross-check the contracts together with the models the proofs trust)
+    sweeps_done = []
+    native_fail = []
+    if tier == 'thorough' and not a.only:
+        import replay_native
+        for un in units_available():
+            u = pipeline.load_unit(un)
+            for sp in getattr(u, 'NATIVE_SWEEPS', []):
+                if pid not in sp.get('props', []):
+                    continue
+                nd = os.path.join(work, 'native_' + sp['name'])
+                os.makedirs(nd, exist_ok=True)
+                res = replay_native.sweep(sp, nd)
+                if res.get('error'):
+                    errors.append('native sweep %s/%s: %s %s' % (un, sp['name'], res['error'], (res.get('build_output') or '')[-400:]))
+                    continue
+                sweeps_done.append({'proof': 'native:' + sp['name'], 'unit': un, 'function': sp.get('what', sp['driver']), 'bound': '%d inputs' % res['ran'],
+                                    'obligations': res['ran'], 'failed': len(res['failed']), 'note': 'real code of the tree under check, g++ -fsanitize=address,undefined, driver replay/drivers/%s.cc' % sp['driver']})
+                if res['failed']:
+                    native_fail.append((un, sp, res))
+    bounded.extend(sweeps_done)
+
     wall = time.time() - t0
     viol_lines = []
+    if native_fail and not errors:
+        os.makedirs(os.path.join(ROOT, 'replays', pid), exist_ok=True)
+        for un, sp, res in native_fail:
+            path = os.path.join(ROOT, 'replays', pid, 'native_%s.json' % sp['name'])
+            f0 = res['failed'][0]
+            drv = {k: v for k, v in sp.items() if k in ('driver', 'include_cc', 'link')}
+            json.dump({'property': pid, 'unit': un, 'proof': 'native:' + sp['name'], 'function': sp.get('what', sp['driver']), 'failed_obligations': [],
+                       'replayed': True, 'native': {'reproduced': True, 'drv': dict(drv, argv=f0['argv']), 'driver': 'replay/drivers/%s.cc' % sp['driver'],
+                                                    'argv': f0['argv'], 'exit': f0['exit'], 'output': f0['output']},
+                       'all_failing_inputs': [f['argv'] for f in res['failed']][:50]}, open(path, 'w'), indent=1)
+            print('  native sweep %s: %d of %d inputs fail on the real code, first: %s' % (sp['name'], len(res['failed']), res['ran'], f0['output'].strip()[:300]))
+            viol_lines.append('VIOLATION property=%s replay=%s' % (pid, path))
     if failures and not errors:
         # group by proof
         groups = {}
